@@ -74,6 +74,7 @@ ITERATION_JOBS_Q = [
     S("h_iteration", it(2, N=2, d=1, C=2, fk=2, jk=1), ["multi_channel.adjustment_data_is_per_channel"]),
     S("h_iteration", it(2, N=1, d=2, C=3, fk=2, jk=1, ask=1), ["multi_channel.call_protocol_order"]),
     S("h_iteration", it(2, N=1, d=1, C=2, fk=5, jk=1, dist=5), ["multi_channel.adjustment_data_is_per_channel"]),
+    S("h_iteration", it(2, N=1, d=1, C=2, fk=2, jk=1, dist=1, popt=1), ["multi_channel.call_protocol_order"]),
 ]
 ITERATION_JOBS_T = [
     S("h_iteration", it(0, N=3, d=2, fk=5), ["iteration.sum_is_sum"], tiers=T),
@@ -225,6 +226,9 @@ for alg in (0, 1, 2):
         ROLLBACK_JOBS.append(S("h_driver", drv(3, alg, n=2, cp=1, text=text), ["rollback.serialises_like", "rollback.to_n_changes_nothing",
                                                                                  "rollback.beyond_the_last", "rollback.resuming_reproduces"]))
 ROLLBACK_JOBS += [
+    S("h_driver", drv(3, 0, n=2, cp=1, hist=1), ["rollback.serialises_like"]),
+    S("h_driver", drv(3, 1, n=2, cp=1, hist=1, user=1), ["rollback.serialises_like"]),
+    S("h_driver", drv(3, 2, n=2, cp=1, hist=1, user=1), ["rollback.serialises_like"]),
     S("h_driver", drv(3, 1, n=2, cp=2, text=1, user=1), ["rollback.serialises_like"]),
     S("h_driver", drv(3, 2, n=2, cp=2, text=1, user=1), ["rollback.serialises_like"]),
     S("h_driver", drv(3, 0, n=3, cp=1, text=1), ["rollback.serialises_like"], tiers=T),
@@ -265,6 +269,7 @@ PLAN["C12"] = dict(functions=DRIVER_FUNCS + ["hep::callback<Checkpoint>::operato
                    assumptions=DRIVER_ASSUME, jobs=ORDER_JOBS + STOP_JOBS)
 
 STATE_JOBS = [
+    S("h_driver", drv(7, 1, n=2, cp=0, B=3, user=0), ["state.iteration_uses_refinement"]),
     S("h_driver", drv(7, 1, n=2, cp=1, user=1), ["state.first_iteration_uses", "state.iteration_uses_refinement"]),
     S("h_driver", drv(7, 1, n=2, cp=1, user=0), ["state.first_iteration_uses", "state.iteration_uses_refinement"]),
     S("h_driver", drv(7, 2, n=2, cp=1, user=1), ["state.first_iteration_uses", "state.iteration_uses_refinement"]),
@@ -327,6 +332,7 @@ HELPER_JOBS = [
     S("h_helpers", dict(ob=2, m=2), ["chi.documented_formula"]),
     S("h_helpers", dict(ob=2, m=3), ["chi.documented_formula"]),
     S("h_helpers", dict(ob=3, m=2), ["distributions.same_rule"]),
+    S("h_helpers", dict(ob=3, m=2, by=2), ["distributions.same_rule"]),
     S("h_helpers", dict(ob=4), ["create_result.variance"]),
     S("h_helpers", dict(ob=4, big=1), ["create_result.variance"]),
     S("h_helpers", dict(ob=0, m=4), ["weighted.independent_of_the_order"], tiers=T, timeout_ms=300000),
@@ -357,6 +363,8 @@ DIST_JOBS = [
     S("h_distribution", dict(ob=1, bx=2, by=2, N=1, yk=1), ["bin.holds_exactly"]),
     S("h_distribution", dict(ob=1, bx=2, by=2, N=1, yk=3), ["bin.holds_exactly"]),
     S("h_distribution", dict(ob=1, bx=1, by=2, N=1, xk=3), ["bin.holds_exactly"]),
+    S("h_distribution", dict(ob=2, N=1), ["several.each_bin_of_each_distribution"]),
+    S("h_distribution", dict(ob=2, N=2), ["several.each_bin_of_each_distribution"], tiers=T, split=8),
     S("h_distribution", dict(ob=0, bx=3, N=2), ["bin.holds_exactly"], tiers=T),
     S("h_distribution", dict(ob=0, bx=4, N=1), ["bin.holds_exactly"], tiers=T),
     S("h_distribution", dict(ob=1, bx=3, by=2, N=1), ["bin.holds_exactly"], tiers=T),
